@@ -9,7 +9,7 @@ from vlib import core, diffprog, igen
 from vlib.igen import TYPES, INT, UINT, LONG, ULONG, BOOL, conv, common, lit
 
 CONTEXTS = ['static-init', 'array-bound', 'case-label', 'enumerator', 'bitfield-width', 'alignas', 'designator',
-            'static-local', 'fp-static', 'sizeof-array-param', 'global-array-of-struct']
+            'static-local', 'fp-static', 'sizeof-array-param', 'global-array-of-struct', 'fp-mixed']
 FTYPES = [('float', 'f'), ('double', ''), ('long double', 'L')]
 
 
@@ -17,10 +17,104 @@ def ux(v):
     return '%x' % conv(v, ULONG)
 
 
+FLITS = [('0.0', 0.0), ('0.5', 0.5), ('0.2', 0.2), ('0.7', 0.7), ('1.5', 1.5), ('1.2', 1.2), ('2.5', 2.5), ('0.75', 0.75), ('3.0', 3.0), ('0.1', 0.1), ('1e10', 1e10), ('16777217.0', 16777217.0),
+         ('4294967296.0', 4294967296.0), ('9223372036854775808.0', 9223372036854775808.0), ('0.999', 0.999), ('1e-3', 1e-3), ('255.9', 255.9)]
+ILITS = [('0', 0), ('1', 1), ('2', 2), ('-1', -1), ('7', 7), ('2147483647', 2147483647), ('4294967295U', 4294967295), ('9223372036854775807L', 9223372036854775807),
+         ('18446744073709551615UL', 18446744073709551615), ('0x8000000000000800UL', 0x8000000000000800), ('16777217', 16777217)]
+FSUF = [('float', 'f'), ('double', ''), ('long double', 'L')]
+ICAST = [('int', -2e9, 2e9), ('long', -9e18, 9e18), ('unsigned long', 0.0, 1.8e19), ('unsigned char', 0.0, 255.0), ('unsigned', 0.0, 4.2e9), ('short', -32000.0, 32000.0)]
+
+
+class FGen:
+    """Floating and mixed integer/floating constant expressions.  Every leaf is a literal; the run-time twin reads the
+    same literal from a volatile object.  An approximate value (Python float) is tracked only to keep conversions to
+    integer types inside the range where C11 6.3.1.4 defines them and to keep magnitudes finite."""
+
+    def __init__(self, ch):
+        self.ch = ch
+        self.vars = []          # (name, ctype, literal text)
+        self.feat = set()
+
+    def leaf(self):
+        ch = self.ch
+        n = '@fv%d' % len(self.vars)
+        if ch.int(0, 9) < 7:
+            txt, v = ch.choice(FLITS)
+            ft, suf = ch.choice(FSUF)
+            if ft == 'float' and txt in ('16777217.0', '0.1', '0.2', '0.7', '1.2', '0.999', '255.9'):
+                self.feat.add('inexact-float-literal')
+            self.vars.append((n, ft, txt + suf))
+            return txt + suf, n, 'f', v
+        txt, v = ch.choice(ILITS)
+        ct = 'unsigned long' if 'UL' in txt else ('long' if txt.endswith('L') else ('unsigned' if txt.endswith('U') else 'int'))
+        self.vars.append((n, ct, txt))
+        self.feat.add('int-leaf' + ('>=2^63' if v >= 2 ** 63 else ''))
+        return '(%s)' % txt if v < 0 else txt, n, 'i', float(v)
+
+    def expr(self, d):
+        ch = self.ch
+        if d <= 0 or ch.int(0, 9) < 2:
+            return self.leaf()
+        r = ch.int(0, 99)
+        if r < 30:
+            a = self.expr(d - 1); b = self.expr(d - 1)
+            if a[2] == 'i' and b[2] == 'i':
+                a = ('(double)' + a[0], '(double)' + a[1], 'f', a[3])
+            op = ch.choice(['+', '-', '*', '/'])
+            if op == '/' and abs(b[3]) < 1e-6:
+                op = '+'
+            if op == '*' and abs(a[3]) * abs(b[3]) > 1e30:
+                op = '-'
+            v = {'+': a[3] + b[3], '-': a[3] - b[3], '*': a[3] * b[3], '/': (a[3] / b[3]) if op == '/' else 0.0}[op]
+            self.feat.add('fp' + op)
+            return '(%s %s %s)' % (a[0], op, b[0]), '(%s %s %s)' % (a[1], op, b[1]), 'f', v
+        if r < 55:
+            a = self.expr(d - 1); b = self.expr(d - 1)
+            op = ch.choice(['<', '<=', '>', '>=', '==', '!='])
+            if a[2] == 'i' and b[2] == 'i':
+                b = ('(float)' + b[0], '(float)' + b[1], 'f', b[3])
+            close = abs(a[3] - b[3]) <= 1e-6 * max(abs(a[3]), abs(b[3]), 1.0)
+            self.feat.add('cmp' + op + (':operands-within-1-of-each-other' if abs(a[3] - b[3]) < 1 else ''))
+            v = None if close else float({'<': a[3] < b[3], '<=': a[3] <= b[3], '>': a[3] > b[3], '>=': a[3] >= b[3], '==': False, '!=': True}[op])
+            return '(%s %s %s)' % (a[0], op, b[0]), '(%s %s %s)' % (a[1], op, b[1]), 'i', (0.5 if v is None else v)
+        if r < 65:
+            a = self.expr(d - 1)
+            self.feat.add('!' + a[2])
+            return '(!%s)' % a[0], '(!%s)' % a[1], 'i', 0.5
+        if r < 77:
+            a = self.expr(d - 1); b = self.expr(d - 1)
+            op = ch.choice(['&&', '||'])
+            self.feat.add(op + a[2] + b[2])
+            return '(%s %s %s)' % (a[0], op, b[0]), '(%s %s %s)' % (a[1], op, b[1]), 'i', 0.5
+        if r < 87:
+            c = self.expr(d - 1); a = self.expr(d - 1); b = self.expr(d - 1)
+            self.feat.add('?:cond-' + c[2])
+            k = 'f' if 'f' in (a[2], b[2]) else 'i'
+            v = a[3] if abs(a[3]) >= abs(b[3]) else b[3]          # bound used for range decisions: the larger magnitude
+            if k == 'i' and (a[3] < 0 or b[3] < 0):
+                v = -abs(v)
+            return '(%s ? %s : %s)' % (c[0], a[0], b[0]), '(%s ? %s : %s)' % (c[1], a[1], b[1]), k, v
+        if r < 92:
+            a = self.expr(d - 1)
+            return '(-%s)' % a[0], '(-%s)' % a[1], a[2], -a[3]
+        a = self.expr(d - 1)
+        if a[2] == 'f' and ch.bool():
+            cands = [(t, lo, hi) for t, lo, hi in ICAST if lo <= a[3] <= hi and (lo <= -a[3] <= hi or lo == 0.0 and a[3] >= 0)]
+            # '?:' and comparison results carry only a bound, so the cast must be defined for every value of smaller magnitude
+            cands = [c for c in cands if not (c[1] == 0.0 and '?' in a[0] and '-' in a[0])]
+            if cands:
+                t, lo, hi = ch.choice(cands)
+                self.feat.add('cast:fp->' + t)
+                return '((%s)%s)' % (t, a[0]), '((%s)%s)' % (t, a[1]), 'i', float(int(a[3])) if abs(a[3]) < 1e18 else a[3]
+        ft, _ = ch.choice(FSUF)
+        self.feat.add('cast:%s->%s' % (a[2], ft))
+        return '((%s)%s)' % (ft, a[0]), '((%s)%s)' % (ft, a[1]), 'f', a[3]
+
+
 class C07:
     id = 'C07'
     level = 'exploration'
-    rule = ('cases = integer constant expressions (depth<=D; all 9 integer types, every operator, casts, enum and character constants) '
+    rule = ('cases = integer constant expressions (depth<=D; all 9 integer types, every operator, casts, enum and character constants) and, in one case of five, floating and mixed integer/floating constant expressions (arithmetic, comparisons, !, &&, ||, ?:, casts in both directions over float/double/long double literals and integer literals up to 2^64-1; conversions to integer types only where 6.3.1.4 defines them) '
             'placed in one of %d constant contexts, each next to its run-time twin (literals replaced by volatile reads); '
             'oracle: const == run-time, == integer model, == gcc/clang consensus; plus negative cases (division by zero in every context '
             'must be a located diagnostic). non-trivial = expression contains a value-changing conversion, mixed-type operator, shift, or boundary operand; '
@@ -32,7 +126,9 @@ class C07:
 
     def gen_case(self, ch, depth):
         g = igen.Gen(ch, allow_side=False, allow_ptr=False, allow_comma=False)
-        c = ch.int(0, len(CONTEXTS) - 1)
+        if ch.int(0, 4) == 0:
+            return self.gen_fp_case(ch, depth)
+        c = ch.int(0, len(CONTEXTS) - 2)
         e = g.expr(ch.int(1, depth))
         C, Rt = e.ctxt, e.txt
         decls = ''
@@ -120,6 +216,39 @@ class C07:
             exp.append('%s %s %s' % (ux(v), ux(v), ux(v)))
         nt = (tuple(sorted(g.feat)), c) if g.nt else None
         return diffprog.Case(decls=decls, body=body, expect=exp, nt=nt, tags=['ctx:' + CONTEXTS[c]] + sorted(g.feat))
+
+    def gen_fp_case(self, ch, depth):
+        fg = FGen(ch)
+        C, Rt, kind, approx = fg.expr(ch.int(1, min(depth, 4)))
+        loc = ''.join('  volatile %s %s = %s;\n' % (t, n, l) for n, t, l in fg.vars)
+        form = ch.choice(['truth-bound', 'static-bool', 'static-fp', 'static-int'] if kind == 'f' else ['truth-bound', 'static-bool', 'static-int', 'static-fp', 'enumerator'])
+        decls = ''; body = loc
+        if form == 'truth-bound':
+            # an array bound and a static initializer that depend on the truth value of E
+            decls += 'static char @a[(%s) ? 3 : 5];\nstatic int @t = !(%s);\n' % (C, C)
+            body += '  printf("@ %%d %%d %%d %%d\\n", (int)sizeof(@a), (%s) ? 3 : 5, @t, !(%s));\n' % (Rt, Rt)
+        elif form == 'static-bool':
+            decls += 'static _Bool @b = %s;\n' % C
+            body += '  { _Bool r = %s; printf("@ %%d %%d\\n", @b, r); }\n' % Rt
+        elif form == 'static-int':
+            if kind == 'f' and not (abs(approx) < 2e9):
+                return None
+            t = 'long' if kind == 'i' else 'int'
+            decls += 'static %s @x = %s;\n' % (t, C)
+            body += '  { %s r = %s; printf("@ %%ld %%ld\\n", (long)@x, (long)r); }\n' % (t, Rt)
+        elif form == 'enumerator':
+            if not (abs(approx) < 2e9):
+                return None
+            decls += 'enum { @K = %s };\n' % C
+            body += '  printf("@ %%d %%d\\n", (int)@K, (int)(%s));\n' % Rt
+        else:
+            ft = ch.choice(['float', 'double', 'long double'])
+            n = {'float': 4, 'double': 8, 'long double': 10}[ft]
+            decls += 'static %s @x = %s;\n' % (ft, C)
+            body += ('  { %s r = %s; printf("@ %%d\\n", memcmp(&@x, &r, %d) == 0);\n'
+                     '    unsigned char *p = (unsigned char *)&@x; int i; printf("@"); for (i = 0; i < %d; i++) printf(" %%02x", p[i]); printf("\\n"); }\n') % (ft, Rt, n, n)
+        fg.feat.add('form:' + form)
+        return diffprog.Case(decls=decls, body=body, expect=None, nt=(tuple(sorted(fg.feat)), 'fp-mixed'), tags=['ctx:fp-mixed'] + sorted(fg.feat))
 
     def example(self, ch, ctx):
         depth = 4 if ctx.quick else 5
